@@ -114,6 +114,12 @@ def worlds(tier):
                 if recomb is not None:
                     opts["recombrate"] = 200000.0
                 yield mk(seed, trio_names, list(gs), support, recomb, opts)
+                if recomb is None and support == "all" and (T or per_variant.index(gs[0]) % 2 == 0):
+                    # HP encoding, unphased input genotypes spelled 1/0 (all / every other variant)
+                    for spelling in ("desc", "mixed"):
+                        inst = mk(seed, trio_names, list(gs), support, recomb, dict(opts, tag="HP"))
+                        inst["world"]["gt_spelling"] = spelling
+                        yield inst
         if T:
             yield mk(seed, trio_names, list(gs), "all", None, dict(genmap=True))
     # genetic map on a subset
